@@ -523,6 +523,7 @@ def run(ctx):
     r5(ctx)
     r6(ctx)
     r7(ctx)
+    r8(ctx)
     repo = ctx.repo
     ctx.rule("C13.R1", "field-by-field agreement of the hand-written reader with the template: same output keys "
                        "in the same wire order, same gate flag, same wire signature")
@@ -627,6 +628,18 @@ def run(ctx):
                    strict is True or not fast_rejects, ctx.w(fi, ff["node"]) if ff is not None else ctx.w(tci.module, c),
                    f"the fast reader calls {enum_name}(value) outside a `try ... except ValueError: pass`, which raises for every "
                    f"wire value without a member, while se.IntEnum({enum_name}) is strict={strict!r} and keeps such values as numbers")
+            # ... and where it wraps, the constructor call must be the member lookup the adapter does (`val in iter(enum)`):
+            # an enum with its own `_missing_` / `__new__` turns non-member wire values into members, se.IntEnum does not
+            eci = repo.resolve_class(enum_name, tci.module)
+            if fast_wraps and eci is not None:
+                custom = [(k, m_) for k in repo.mro(eci) if k.module.rel.startswith("hippolyzer/")
+                          for m_ in ("_missing_", "__new__") if m_ in k.methods]
+                ctx.ob("C13.R2", f"{tf['key']}: {enum_name}(value) is plain member lookup (no _missing_ / __new__)", not custom,
+                       ctx.w(custom[0][0].methods[custom[0][1]], custom[0][0].methods[custom[0][1]].node) if custom
+                       else ctx.w(tci.module, c),
+                       f"{custom[0][0].name}.{custom[0][1]} customises what {enum_name}(value) returns for a value without a member: "
+                       f"the fast reader calls the class, the template's se.IntEnum only tests membership and keeps the number - "
+                       f"the two decoders then disagree on such a wire value (and on every field switched on it)" if custom else "")
     ctx.floor("C13.R2", "se.IntEnum rows in the compressed template", n_enum_rows, 2)
     # every stream position read is delivered to some key (nothing silently skipped -> offsets agree)
     consumed = set(range(interp.pos))
@@ -1043,6 +1056,15 @@ def r6(ctx):
     repo = ctx.repo
     ctx.rule("C13.R6", "encode side keeps decoded order: no codec class on the compressed template's path sorts, dedupes through a "
                        "set or (one-sidedly) reverses the value it writes")
+    classes = _codec_classes(ctx)
+    ctx.floor("C13.R6", "codec classes on the template's path", len(classes), 10)
+    _r6_body(ctx, classes)
+
+
+def _codec_classes(ctx):
+    """Every repo class on the compressed template's path: the fields, the shared sub-templates they name and the classes
+    those are built from (with their bases)."""
+    repo = ctx.repo
     _tfields, _ff, tci = template_fields(ctx)
     tnode = repo.class_attr(tci, "TEMPLATE")
     mod = tci.module
@@ -1066,12 +1088,27 @@ def r6(ctx):
                     for c in repo.mro(ci):
                         if c.module.rel.startswith("hippolyzer/"):
                             classes[c.qual if hasattr(c, "qual") else c.name] = c
+                    if ci.module is mod:
+                        # a described dataclass: the specs of its fields are part of the path
+                        for st in ci.node.body:
+                            if isinstance(st, (ast.Assign, ast.AnnAssign)) and st.value is not None:
+                                work.append(st.value)
+                    break
+                fns_ = [g for g in repo.funcs.get(name, []) if g.module is mod and g.cls is None and g.parent_fn is None] \
+                    if m_ is mod else []
+                if len(fns_) == 1:
+                    # a spec factory (`_te_field(...)`): what it builds is on the path
+                    work.extend(fns_[0].node.body)
                     break
                 tgt = repo.module_assign(m_, name)
                 if tgt is not None and m_ is mod:
                     work.append(tgt)
                     break
-    ctx.floor("C13.R6", "codec classes on the template's path", len(classes), 10)
+    return classes
+
+
+def _r6_body(ctx, classes):
+    repo = ctx.repo
     ORDER_OPS = {"sorted": "sorts", "set": "dedupes through a set", "frozenset": "dedupes through a set", "reversed": "reverses"}
     for cname, ci in sorted(classes.items()):
         for side, other in (("encode", "decode"), ("serialize", "deserialize")):
@@ -1100,6 +1137,86 @@ def r6(ctx):
                    ctx.w(bad[0][0], bad[0][1]) if bad else f.where,
                    f"{ci.name}.{side} {bad[0][2]} the value (`{norm(bad[0][1])[:70]}`): a payload whose elements are not already in "
                    f"that order decodes fine in both decoders but re-encodes to different bytes" if bad else "")
+
+
+def r8(ctx):
+    """Re-encoding reproduces the payload only if the writer of a repeated section emits every entry the reader produced.
+    In the serialize / encode method (and same-class helpers) of every codec class on the template's path, a write that
+    sits in a loop over the decoded entries may be skipped only for the reader's own sentinel key (`key is None`): never
+    depending on the entry's VALUE (dropping "redundant" entries - equal to the default, empty, zero - changes the bytes
+    although both decoders still agree on what they read)."""
+    repo = ctx.repo
+    ctx.rule("C13.R8", "writers of repeated sections emit every decoded entry: inside a loop over the value, no write is skipped "
+                       "depending on the entry's value (only the reader's own `is None` sentinel key may be passed over)")
+    classes = _codec_classes(ctx)
+    n_loops = 0
+    for cname, ci in sorted(classes.items()):
+        for side, other in (("encode", "decode"), ("serialize", "deserialize")):
+            f = ci.methods.get(side)
+            if f is None:
+                continue
+            fns = [f] + [ci.methods[c.func.attr] for c in calls(f.node) if isinstance(c.func, ast.Attribute) and
+                         isinstance(c.func.value, ast.Name) and c.func.value.id in ("self", "cls") and c.func.attr in ci.methods
+                         and c.func.attr not in (side, other)]
+            for g in fns:
+                for loop in [n for n in walk(g.node) if isinstance(n, ast.For)]:
+                    writes = [c for c in calls(loop) if isinstance(c.func, ast.Attribute) and
+                              c.func.attr in ("write", "write_bytes", "append", "extend")]
+                    if not writes:
+                        continue
+                    # key / value names of the loop target
+                    tnames = [n.id for n in ast.walk(loop.target) if isinstance(n, ast.Name)]
+                    items = isinstance(loop.iter, ast.Call) and isinstance(loop.iter.func, ast.Attribute) and \
+                        loop.iter.func.attr == "items" and isinstance(loop.target, ast.Tuple) and len(loop.target.elts) == 2
+                    key_names = {n.id for n in ast.walk(loop.target.elts[0]) if isinstance(n, ast.Name)} if items else set()
+                    # the entry's value = the loop-target names that are handed to a write as the data (not the spec of a
+                    # zip(specs, vals), not the index of an enumerate)
+                    def _data_args(w):
+                        if w.func.attr == "write":
+                            return w.args[1:2] + [k.value for k in w.keywords if k.arg in ("val", "value")]
+                        return w.args[:1]
+                    written = {n.id for w in writes for a in _data_args(w) for n in ast.walk(a) if isinstance(n, ast.Name)}
+                    val_names = (set(tnames) - key_names) & written
+                    # separator / framing writes carry no entry data: when they happen is not this rule's business
+                    writes = [w for w in writes if any(isinstance(n, ast.Name) and n.id in (val_names | key_names)
+                                                       for a in _data_args(w) for n in ast.walk(a))]
+                    if not writes:
+                        continue
+                    n_loops += 1
+                    bad = None
+                    for w in writes:
+                        for c in conditions(w, loop):
+                            used = {n.id for n in ast.walk(c.test) if isinstance(n, ast.Name)}
+                            if used & val_names and _is_value_test(c.test, val_names):
+                                bad = (w, c, "the entry's value")
+                            elif used & key_names and not _is_none_test(c.test, key_names):
+                                bad = (w, c, "the entry's key")
+                            if bad:
+                                break
+                        if bad:
+                            break
+                    ctx.ob("C13.R8", f"{ci.name}.{g.name}: loop over `{norm(loop.iter)[:50]}` writes every entry", bad is None,
+                           ctx.w(g, bad[0]) if bad else ctx.w(g, loop),
+                           f"`{norm(bad[0])[:60]}` is skipped depending on {bad[2]} (`{norm(bad[1].test)[:60]}`): an entry the reader "
+                           f"produced is not written back, so the re-encoded section differs from the payload" if bad else "")
+    ctx.floor("C13.R8", "entry-writing loops in codec classes on the template's path", n_loops, 3)
+
+
+def _is_none_test(test, names):
+    """`k is None` / `k is not None` / `not ...` of it, over the given names"""
+    if isinstance(test, ast.UnaryOp) and isinstance(test.op, ast.Not):
+        return _is_none_test(test.operand, names)
+    return isinstance(test, ast.Compare) and len(test.ops) == 1 and isinstance(test.ops[0], (ast.Is, ast.IsNot)) and \
+        isinstance(test.left, ast.Name) and test.left.id in names and isinstance(test.comparators[0], ast.Constant) and \
+        test.comparators[0].value is None
+
+
+def _is_value_test(test, names):
+    """the test looks at what the entry's value IS (equality / identity / truth / membership / len), as opposed to its type"""
+    for n in ast.walk(test):
+        if isinstance(n, ast.Call) and (ap(n.func) or "") in ("isinstance", "issubclass", "type", "callable", "hasattr"):
+            return False
+    return True
 
 
 def _ancestors(n):
